@@ -289,6 +289,7 @@ class MultiJobShopGraphEnv(gym.Env):
             job_shop_graph=graph,
             feature_observer_configs=self.feature_observer_configs,
             reward_function_config=self.reward_function_config,
+            graph_updater_config=self.graph_updater_config,
             ready_operations_filter=self.ready_operations_filter,
             render_mode=self.render_mode,
             render_config=self.render_config,
